@@ -12,7 +12,7 @@ def canon(callee):
     # strip turbofish groups (balanced <>)
     out, i, n = [], 0, len(c)
     while i < n:
-        if c.startswith("::<", i):
+        if c.startswith("::<", i) and not c.startswith("::<impl ", i):
             d, j = 0, i + 2
             while j < n:
                 if c[j] == "<": d += 1
